@@ -861,6 +861,8 @@ func (e *c03Env) send(c *c03Case) (obs string) {
 			req.Header.Set("Content-Type", "application/json")
 		case "p":
 			req.Header.Set("Content-Type", "application/protobuf")
+		case "f":
+			req.Header.Set("Content-Type", "application/x-www-form-urlencoded")
 		default:
 			req.Header.Set("Content-Type", "application/x-unknown")
 		}
@@ -869,7 +871,7 @@ func (e *c03Env) send(c *c03Case) (obs string) {
 		}
 		// the reply's media type is negotiated from Accept and has no say in how the request body is read:
 		// a third of the requests ask for the other codec, a third for anything
-		switch len(c.Body.Raw) % 3 {
+		switch len(c.Body.Raw) % 3 * b2i(c.Body.Codec != "f") {
 		case 1:
 			req.Header.Set("Accept", map[string]string{"j": "application/protobuf", "p": "application/json"}[c.Body.Codec])
 		case 2:
